@@ -35,7 +35,7 @@ def floor(tier):
 
 
 def cases(tier, rng):
-    n = 100 if tier == "quick" else 3000
+    n = 100 if tier == "quick" else 6000
     out = []
     for i in range(n):
         cfg = cards.rand_config(rng, ptos=(0, 0, 1, 1, 2), sv=True, ew=False, schemes=[cards.SCHEMES[i % 5]])
